@@ -127,7 +127,12 @@ Stats == PrintT(<<"STATS", [nodes |-> NLog,
    crossAppMsgs |-> Count(LAMBDA nd : nd.a \in {"DepositLocker", "WithdrawLocker", "CloseLocker"} /\ LIdx(Pre(nd).lockers, nd.args.id) # 0 /\ nd.args.app # LockerApp(nd)),
    wrongAssetMsgs |-> Count(LAMBDA nd : nd.a \in LockerActs \ {"RewardCalc"} /\ nd.args.asset # ST),
    lsrChanges |-> Count(LAMBDA nd : nd.a = "LsrChange" /\ nd.res.ok),
-   lsrChangesMulti |-> Count(LAMBDA nd : nd.a = "LsrChange" /\ nd.res.ok /\ Cardinality({i \in 1..Len(Pre(nd).lockers) : RsOf(nd)[i] > 0}) >= 2),
+   lsrChangesMulti |-> Count(LAMBDA nd : nd.a = "LsrChange" /\ Log[nd.parent].st.lsrOn[nd.args.app] /\ Pre(nd).nf[nd.args.app][ST] >= 10
+                                          /\ Cardinality({i \in 1..Len(Pre(nd).lockers) : Pre(nd).lockers[i].app = nd.args.app /\ Pre(nd).lockers[i].net >= 50
+                                                                                            /\ Log[nd.parent].st.lage[i] >= 2592000}) >= 2),
+   rewardDue |-> Count(LAMBDA nd : nd.a \in LockerActs \ {"CreateLocker"} /\ LIdx(Pre(nd).lockers, nd.args.id) # 0 /\ nd.args.app = LockerApp(nd)
+                                    /\ Log[nd.parent].st.lsrOn[nd.args.app] /\ Pre(nd).nf[nd.args.app][ST] >= 10
+                                    /\ Pre(nd).lockers[LIdx(Pre(nd).lockers, nd.args.id)].net >= 50 /\ Log[nd.parent].st.lage[LIdx(Pre(nd).lockers, nd.args.id)] >= 2592000),
    twoApps |-> Count(LAMBDA nd : nd.st.nf["a1"][ST] > 0 /\ nd.st.nf["a2"][ST] > 0) ]>>)
 AllSeen == Stats /\ TLCGet("stats").distinct = NLog
 =============================================================================
